@@ -34,6 +34,8 @@ def known_shape(stim, b, findings):
                 continue
         if sh.get("want_has") == "empty-container" and not doc_has(b["want"], lambda d: d["k"] in ("arr", "obj") and not d["v"]):
             continue
+        if sh.get("want_has") == "big" and not (doc_has(b["want"], lambda d: d["k"] == "big") or doc_has(stim["start"], lambda d: d["k"] == "big")):
+            continue
         if sh.get("want_has") == "false" and not doc_has(b["want"], lambda d: d["k"] == "bool" and d["v"] is False):
             continue
         return f["feature"]
